@@ -171,7 +171,7 @@ def run(ctx):
     for i in range(10 if q else 40):
         record(th.reorder_datums(th.example_stream("external_assets_legacy.json"), rng), f"example:legacy:reordered:{i}")
     for i in range(200 if q else 4000):
-        record(th.random_norm_run(rng, i, max_events=5 if q else 8), f"random:{i}")
+        record(th.random_norm_run(rng, i, max_events=6 if q else 9), f"random:{i}")
 
     ctx.note(f"phase recorded runs: {time.time() - t0:.1f}s")
     t0 = time.time()
